@@ -20,6 +20,8 @@ for d in sorted(glob.glob("/verif/seeded/C*-*")):
     if sel and not any(name.startswith(s) for s in sel):
         continue
     pid = name.split("-")[0]
+    if os.environ.get("SEED_SUFFIX") and name.split("-")[1] not in os.environ["SEED_SUFFIX"]:      # e.g. SEED_SUFFIX=gh: one seeding round only
+        continue
     if STREAM and int(pid[1:]) % STREAM[1] != STREAM[0]:
         continue
     if subprocess.run(["git", "-C", REPO, "diff", "--quiet"]).returncode != 0:
